@@ -15,13 +15,19 @@
 (* At every crash probe the map the specification's Rebuild computes from ITS files     *)
 (* must equal what the real recovery read from the real image.                          *)
 (*                                                                                     *)
+(* The fault-injection traces are validated the same way against BitcaskFault.tla: a     *)
+(* call the shim failed must be a Fail* step at the program counter that issues that      *)
+(* call, and the calls of the error path (new active file, the retained bytes landing     *)
+(* when the writer is dropped, removal of the output's hint file, the new active file     *)
+(* above the outputs) must follow as modelled.                                            *)
 (* A rejection is "model drift" (the code no longer follows the modelled mechanism),    *)
 (* never a property violation: properties are judged by TraceFs/TraceStore.             *)
 (***************************************************************************************)
-EXTENDS Bitcask, Json, IOUtils
+EXTENDS BitcaskFault, Json, IOUtils
 
 VARIABLES l, acc       \* next event; bytes of a merge copy seen so far (large records take several writes)
-tvars == <<vars, l, acc>>
+tvars == <<fvars, l, acc>>
+NoFaultChange == UNCHANGED <<nfault, allowed>>
 
 Rec == ndJsonDeserialize(IOEnv.TRACE)
 N == Len(Rec)
@@ -47,6 +53,7 @@ Blank(c) ==
     /\ keydir' = EmptyKeydir /\ stats' = <<>> /\ active' = 0 /\ written' = 0
     /\ wr' = [pc |-> "closed"] /\ model' = [k \in Keys |-> None]
     /\ everIds' = {} /\ nops' = 0 /\ ncrash' = 0 /\ mghost' = [lastFull |-> -1]
+    /\ nfault' = 0 /\ allowed' = [k \in Keys |-> {None}]
 
 TInit ==
     /\ l = 2 /\ acc = 0
@@ -55,9 +62,11 @@ TInit ==
     /\ keydir = EmptyKeydir /\ stats = <<>> /\ active = 0 /\ written = 0
     /\ wr = [pc |-> "closed"] /\ model = [k \in Keys |-> None]
     /\ everIds = {} /\ nops = 0 /\ ncrash = 0 /\ mghost = [lastFull |-> -1]
+    /\ nfault = 0 /\ allowed = [k \in Keys |-> {None}]
 
 IsSys(r) == r.ev = "sys"
 Mutating(r) == IsSys(r) /\ r.call \notin {"open_ro", "close"}
+Injected(r) == IsSys(r) /\ Has(r, "injected") /\ r.injected
 
 -----------------------------------------------------------------------------------------
 (* events that are not steps of the specification *)
@@ -65,14 +74,15 @@ Skip ==
     /\ l <= N
     /\ \/ (IsSys(E) /\ ~Mutating(E))
        \/ E.ev = "power"
-    /\ Consume /\ UNCHANGED <<vars, acc>>
+       \/ E.ev = "final"
+    /\ Consume /\ UNCHANGED <<fvars, acc>>
 
 \* a crash probe: the specification's recovery of ITS directory agrees with the real one
 CrashProbe ==
     /\ l <= N /\ E.ev = "crash"
     /\ E.rec.opened
     /\ \A k \in Keys : E.rec.map[k] = RecoveredMap(data, hint)[k]
-    /\ Consume /\ UNCHANGED <<vars, acc>>
+    /\ Consume /\ UNCHANGED <<fvars, acc>>
 
 ResetEv ==
     /\ l <= N /\ E.ev = "reset"
@@ -83,17 +93,19 @@ ResetEv ==
 InvEv ==
     /\ l <= N /\ E.ev = "inv"
     /\ CASE E.op \in {"open", "reopen"} ->
-              /\ wr.pc \in {"closed", "idle"}
+              /\ wr.pc \in {"closed", "idle", "openfailed"}
               /\ wr' = [pc |-> "opening"]
               /\ UNCHANGED <<cfg, data, hint, dsync, hsync, keydir, stats, active, written, model, everIds, nops, ncrash, mghost>>
-         [] E.op = "put" -> StartWrite(E.k, E.v)
-         [] E.op = "del" -> StartWrite(E.k, Tomb)
-         [] E.op = "merge" -> StartMerge
+              /\ NoFaultChange
+         [] E.op = "put" -> FStartWrite(E.k, E.v)
+         [] E.op = "del" -> FStartWrite(E.k, Tomb)
+         [] E.op = "merge" -> StartMerge /\ NoFaultChange
     /\ acc' = 0 /\ Consume
 
 -----------------------------------------------------------------------------------------
 (* system-call steps: the recorded call must be the call the specification is about to issue *)
-IsCall(c, kind, id) == Mutating(E) /\ E.call = c /\ E.kind = kind /\ E.id = id
+IsCall(c, kind, id) == Mutating(E) /\ ~Injected(E) /\ E.call = c /\ E.kind = kind /\ E.id = id
+IsFailed(c, kind, id) == Injected(E) /\ E.call = c /\ E.kind = kind /\ E.id = id
 
 SysOpenCreate ==      \* Bitcask::open: rebuild (read only), then create max + 1
     /\ wr.pc = "opening"
@@ -101,6 +113,7 @@ SysOpenCreate ==      \* Bitcask::open: rebuild (read only), then create max + 1
     /\ OpenFrom(data, hint)
     /\ wr' = Idle
     /\ UNCHANGED <<cfg, hint, hsync, model, nops, ncrash, mghost>>
+    /\ NoFaultChange
 
 SysAppend == wr.pc = "append" /\ IsCall("write", "data", active) /\ E.n = wr.calls[wr.ci] /\ AppendStep
 SysSync == wr.pc = "sync" /\ IsCall("fsync", "data", active) /\ SyncStep
@@ -126,17 +139,49 @@ SysMergeCopyPiece ==
        \/ /\ \E k \in MergeTodo : keydir[k].len = acc + E.n /\ MergeCopy(k)
           /\ acc' = 0
 
+\* -- the failed call and the calls of the error paths (BitcaskFault.tla) --
+FaultSys ==
+    \/ (wr.pc = "append" /\ IsFailed("write", "data", active) /\ FailAppend)
+    \/ (wr.pc = "sync" /\ IsFailed("fsync", "data", active) /\ FailSync)
+    \/ (wr.pc = "roll" /\ IsFailed("create", "data", active + 1) /\ FailRoll)
+    \/ (wr.pc = "f.newactive" /\ IsCall("create", "data", active + 1) /\ FNewActive)
+    \/ (wr.pc = "f.dropflush" /\ IsCall("write", "data", wr.old) /\ E.n = wr.retained /\ FDropFlush)
+    \* a failing call inside a merge: it must be the call the merge is about to issue
+    \/ /\ \/ (wr.pc = "m.create_data" /\ IsFailed("create", "data", wr.out))
+          \/ (wr.pc = "m.create_hint" /\ IsFailed("create", "hint", wr.out))
+          \/ (wr.pc = "m.loop" /\ IsFailed("write", "data", wr.out))
+          \/ (wr.pc = "m.hint" /\ IsFailed("write", "hint", wr.out))
+          \/ (wr.pc \in {"m.roll_sync_data", "m.sync_data"} /\ IsFailed("fsync", "data", wr.out))
+          \/ (wr.pc \in {"m.roll_sync_hint", "m.sync_hint"} /\ IsFailed("fsync", "hint", wr.out))
+          \/ (wr.pc = "m.unlink" /\ wr.unl # {} /\ IsFailed("unlink", "hint", NextUnlink))
+          \/ (wr.pc = "m.unlink_data" /\ IsFailed("unlink", "data", NextUnlink))
+       /\ FailMerge
+    \/ (wr.pc = "m.unlink" /\ wr.unl = {} /\ IsFailed("create", "data", wr.out + 1) /\ FailMergeNewActive)
+    \* the retained copy / hint entry landing when the output's writers are dropped: already part of FailMerge
+    \/ /\ wr.pc = "fm.unlinkhint" /\ Mutating(E) /\ ~Injected(E) /\ E.call = "write" /\ E.id = wr.out
+       /\ UNCHANGED fvars
+    \/ (wr.pc = "fm.unlinkhint" /\ Mutating(E) /\ ~Injected(E) /\ E.call = "unlink" /\ E.kind = "hint" /\ E.id = wr.out /\ FMergeUnlinkHint)
+    \/ (wr.pc = "fm.newactive" /\ IsCall("create", "data", wr.out + 1) /\ FMergeNewActive)
+    \* open: the create fails, open returns the error
+    \/ /\ wr.pc = "opening" /\ Injected(E) /\ E.call = "create"
+       /\ wr' = [pc |-> "openfailed"] /\ nfault' = nfault + 1
+       /\ UNCHANGED <<cfg, data, hint, dsync, hsync, keydir, stats, active, written, model, everIds, nops, ncrash, mghost, allowed>>
+
 SysStep ==
     /\ l <= N /\ Mutating(E)
-    /\ \/ (SysMergeCopyPiece /\ Consume)
-       \/ /\ \/ SysOpenCreate \/ SysAppend \/ SysSync \/ SysRoll \/ SysMergeCreateData \/ SysMergeCreateHint
-             \/ SysMergeHint \/ SysMergeSyncData \/ SysMergeSyncHint \/ SysMergeUnlinkHint \/ SysMergeUnlinkData
-             \/ SysMergeNewActive
+    /\ \/ (SysMergeCopyPiece /\ NoFaultChange /\ Consume)
+       \/ /\ \/ SysOpenCreate
+             \/ ((SysAppend \/ SysSync \/ SysRoll \/ SysMergeCreateData \/ SysMergeCreateHint
+                   \/ SysMergeHint \/ SysMergeSyncData \/ SysMergeSyncHint \/ SysMergeUnlinkHint \/ SysMergeUnlinkData
+                   \/ SysMergeNewActive) /\ NoFaultChange)
+             \/ FaultSys
           /\ acc' = acc /\ Consume
 
 \* steps without a system call
 Silent ==
-    /\ \/ AccountStep \/ PublishStep \/ MergeRepoint \/ MergeLoopEnd
+    /\ \/ ((AccountStep \/ MergeRepoint \/ MergeLoopEnd) /\ NoFaultChange)
+       \/ FPublish
+       \/ FRet
     /\ acc = 0 /\ UNCHANGED <<l, acc>>
 
 -----------------------------------------------------------------------------------------
@@ -165,10 +210,10 @@ StateMatches(st) ==
 
 RetEv ==
     /\ l <= N /\ E.ev = "ret"
-    /\ wr = Idle
+    /\ wr \in {Idle, [pc |-> "openfailed"]}
     /\ (Has(E, "st") => StateMatches(E.st))
-    /\ (Has(E, "gets") => \A k \in Keys : E.gets[k] = model[k])
-    /\ Consume /\ UNCHANGED <<vars, acc>>
+    /\ (Has(E, "gets") => \A k \in Keys : E.gets[k] = ReadKey(keydir, data, k))
+    /\ Consume /\ UNCHANGED <<fvars, acc>>
 
 TNext == Skip \/ CrashProbe \/ ResetEv \/ InvEv \/ SysStep \/ Silent \/ RetEv
 TSpec == TInit /\ [][TNext]_tvars
